@@ -5,7 +5,6 @@ import (
 	"go/token"
 	"go/types"
 	"sort"
-	"strings"
 
 	"verifcheck/core"
 )
@@ -552,10 +551,23 @@ func runC06(c *Ctx) {
 				}
 				earlier := false
 				ast.Inspect(f.Body, func(n ast.Node) bool {
-					if fs, ok := n.(*ast.ForStmt); ok && within(fs, call) && fs.Init != nil {
-						s := core.ExprString(fs.Init.(*ast.AssignStmt).Rhs[0])
-						if strings.Contains(s, "- 1") && fs.Cond != nil && strings.Contains(core.ExprString(fs.Cond), ">= 0") {
-							earlier = true
+					if fs, ok := n.(*ast.ForStmt); ok && within(fs, call) && fs.Init != nil && fs.Cond != nil {
+						// for j := i - 1; j >= 0; j--  (all caches before the failing one, in any spelling)
+						init, isAs := fs.Init.(*ast.AssignStmt)
+						if !isAs || len(init.Lhs) != 1 || len(init.Rhs) != 1 {
+							return true
+						}
+						jv := info.ObjectOf(init.Lhs[0].(*ast.Ident))
+						sub, isSub := ast.Unparen(init.Rhs[0]).(*ast.BinaryExpr)
+						cmp, isCmp := ast.Unparen(fs.Cond).(*ast.BinaryExpr)
+						if isSub && isCmp && sub.Op == token.SUB {
+							if one, isC := core.ConstInt(info, sub.Y); isC && one == 1 {
+								if _, y, op, okO := core.Orient(cmp, func(e ast.Expr) bool { return isIdentOf(info, e, jv) }); okO && op == token.GEQ {
+									if z, isZ := core.ConstInt(info, y); isZ && z == 0 {
+										earlier = true
+									}
+								}
+							}
 						}
 					}
 					return true
